@@ -224,7 +224,13 @@ class CompleteWorkflowHandler(StabilizeHandler[CompleteWorkflow]):
     def _other_branches_incomplete(self, stages: list[StageExecution]) -> bool:
         """Check if any other branches are incomplete."""
         for stage in stages:
-            if stage.status == WorkflowStatus.RUNNING:
+            # A SUSPENDED or PAUSED stage is parked, not finished: it resumes on
+            # its signal / on resume, so the workflow must not be finalized yet.
+            if stage.status in (
+                WorkflowStatus.RUNNING,
+                WorkflowStatus.SUSPENDED,
+                WorkflowStatus.PAUSED,
+            ):
                 return True
             if stage.status == WorkflowStatus.NOT_STARTED and stage.all_upstream_stages_complete():
                 return True
